@@ -392,3 +392,18 @@ def nnf_lits(t):
             return None
         out.add((k[1], k[2]))
     return out
+
+
+def is_slash_terminated(e):
+    """expression that certainly ends with '/': `x + '/'`, or `x if x.endswith('/') else x + '/'` (either orientation)"""
+    def plus_slash(b):
+        return isinstance(b, ast.BinOp) and isinstance(b.op, ast.Add) and isinstance(b.right, ast.Constant) and b.right.value == "/"
+    if plus_slash(e):
+        return True
+    if isinstance(e, ast.IfExp):
+        neg, t = strip_not(e.test)
+        a, b = (e.orelse, e.body) if neg else (e.body, e.orelse)
+        if isinstance(t, ast.Call) and isinstance(t.func, ast.Attribute) and t.func.attr == "endswith" and len(t.args) == 1 \
+                and isinstance(t.args[0], ast.Constant) and t.args[0].value == "/" and U(t.func.value) == U(a) and plus_slash(b) and U(b.left) == U(a):
+            return True
+    return False
